@@ -93,7 +93,9 @@ def specConforming (flash old : List Msg) (o : ObsConforming) : Option String :=
     match o.issued with
     | none => some "issued"
     | some v =>
-      if !wireSafe v then some "wire-safe"
+      -- what is issued must decode to exactly the expected messages, whatever the transport does to it
+      if (parse v).map renderSeen ≠ some (renderSeen expected) then some "encode-faithful"
+      else if !wireSafe v then some "wire-safe"
       else if o.c2 ≠ some v then some "client-returns-value"
       else if o.seen2 ≠ renderSeen expected then some "delivered"
       else if o.c3.isSome then some "expired"
@@ -119,8 +121,8 @@ def specTransparent (flash old : List Msg) (o : ObsTransparent) : Option String 
     match o.issued with
     | none => some "issued"
     | some v =>
-      if !transparentSafe v then some "wire-safe"
-      else if (parse v).map renderSeen ≠ some (renderSeen expected) then some "encode-faithful"
+      if (parse v).map renderSeen ≠ some (renderSeen expected) then some "encode-faithful"
+      else if !transparentSafe v then some "wire-safe"
       else if o.st2 ≠ 200 ∨ o.seen2 ≠ renderSeen expected then some "delivered"
       else if !o.exp2 then some "expired"
       else if o.st3 ≠ 200 ∨ o.seen3 ≠ "-" then some "once"
